@@ -685,13 +685,11 @@ var errNone = errors.New("")
 
 // sameTree compares two encodings as documents (map order ignored).
 func sameTree(a, b []byte) bool {
-	x, e1 := adv.Decode(a)
-	y, e2 := adv.Decode(b)
+	ea, e1 := adv.Canonical(a)
+	eb, e2 := adv.Canonical(b)
 	if e1 != nil || e2 != nil {
 		return false
 	}
-	ea, _ := adv.Encode(x)
-	eb, _ := adv.Encode(y)
 	return bytes.Equal(ea, eb)
 }
 
